@@ -774,7 +774,12 @@ func (c *cstream) recvOne(actor string) (bool, error) {
 		if !res.Match {
 			res.Got = trunc(m.Value, 64)
 		}
-	} else {
+	}
+	// A call whose response is not streamed is over when its one RecvMsg
+	// returns, with or without an error: generated code (CloseAndRecv, unary
+	// stubs) calls RecvMsg exactly once and takes a nil error for status OK.
+	single := !shapeServerStreams(c.p.Shape)
+	if err != nil || single {
 		res.Terminal = true
 		// Immediately after the terminal result (no scheduling point in
 		// between): trailers and option targets must be there.
@@ -783,7 +788,7 @@ func (c *cstream) recvOne(actor string) (bool, error) {
 			"peer_target": peerString(&r.PeerTarget), "chan_target": r.ChanTarget}
 	}
 	evReturn(c.p.ID, actor, OpRecv, idx, res)
-	return err != nil, err
+	return err != nil || single, err
 }
 
 func (c *cstream) exec(actor string, ops []Op) {
